@@ -233,6 +233,8 @@ def body(case):
 def classify(case):
     labels = [case["mode"], f"rates={case['rates']}", f"controls={len(case['controls'])}", case["payoff"],
               f"L0={case['initial_level']}", "engine-priced-before" if case.get("priced_before") else "first-pricing"]
+    if case.get("config_reassigned"):
+        labels.append("configuration-attributes-re-assigned/" + ("smaller-initial-sample" if case["config_reassigned"] > 0 else "larger-initial-sample"))
     return labels, False  # non-triviality is decided by the body from the run's history
 
 
